@@ -155,6 +155,17 @@ theorem decrypt_encrypt (c : Crypto) (cd : Codec) (P : EncParams) (pwf : P.WF)
     (segments P.segSize p) 0 (segments_shape _ pwf.seg_pos _) (by omega)
   rw [h1, h2, segments_concat _ pwf.seg_pos]
 
+/-- **Interop, other direction.** A decoder written from README.md alone (`specDecrypt`) opens what
+    `Encrypt` writes, for every script of the plaintext source. -/
+theorem spec_decrypts_impl (c : Crypto) (cd : Codec) (P : EncParams) (pwf : P.WF)
+    (lc : c.Lawful P.overhead) (lcd : cd.Lawful P) (o : EncryptOpts) (fk np wfk : Bytes)
+    (hm : (mkManifest o wfk np).valid P = true) (r : Reader) (heof : r.term = .eof)
+    (hhdr : (signHeader c cd P fk (cd.render (mkManifest o wfk np))).length ≤ P.segSize)
+    (hcount : (segments P.segSize r.stream).length ≤ P.maxSeg + 1) :
+    specDecrypt c cd P fk (encryptImpl c cd P o fk np wfk r).1 = some r.stream := by
+  rw [encrypt_layout c cd P pwf o fk np wfk r heof hhdr hcount]
+  exact specDecrypt_specEncrypt c cd P pwf lc lcd fk _ hm r.stream
+
 /-- The parameters regenerated from the Go source satisfy what the theorems assume. -/
 theorem generated_wf : EncParams.generated.WF :=
   ⟨by decide, by decide, by decide⟩
